@@ -64,6 +64,18 @@ func reconcileBody(r *explore.Run, rep *report.R) {
 		pd.Spec.ClaimNames = d.Spec.ClaimNames
 		for _, k := range []crdKind{composite, claim} {
 			if crd, err, p := render(k, pd); err == nil && p == nil {
+				// The earlier revision had settings the current XRD no longer
+				// asks for; what is stored afterwards must be the current
+				// rendering, not a mixture.
+				crd.Spec.Names.ShortNames = []string{"old"}
+				crd.Spec.Names.Categories = append(crd.Spec.Names.Categories, "legacy")
+				if crd.Spec.Conversion == nil || crd.Spec.Conversion.Strategy != extv1.WebhookConverter {
+					path, port := "/convert-old", int32(9443)
+					crd.Spec.Conversion = &extv1.CustomResourceConversion{Strategy: extv1.WebhookConverter, Webhook: &extv1.WebhookConversion{
+						ConversionReviewVersions: []string{"v1"},
+						ClientConfig:             &extv1.WebhookClientConfig{Service: &extv1.ServiceReference{Namespace: "old", Name: "old", Path: &path, Port: &port}},
+					}}
+				}
 				s.Seed(crd)
 			}
 		}
@@ -121,6 +133,9 @@ func reconcileBody(r *explore.Run, rep *report.R) {
 			f.add("reconcile/"+K+"/crd-not-written", "no %s CRD %s in the API server after one reconcile (err=%v)", K, name, err)
 		case want:
 			checkCRD(f, k, x, d, stored)
+			if rendered, err, p := render(k, d); err == nil && p == nil && canon(stored.Spec) != canon(rendered.Spec) {
+				f.add("reconcile/"+K+"/stored-spec-differs-from-rendering", "the %s CRD stored after the reconcile is not the rendering of the XRD (earlier revision's CRD existed: %v): stored %s, rendered %s", K, existing, canon(stored.Spec), canon(rendered.Spec))
+			}
 			outcome = append(outcome, K+":stored:"+classifyCRD(stored))
 		default:
 			outcome = append(outcome, fmt.Sprintf("%s:none(found=%v)", K, found))
